@@ -104,24 +104,29 @@ class IpcCommand:
         nonfatal = self.read() == "true"
         self.cwd = self.read()
         self.phase = self.read()
-        options = shlex.split(self.read())
+        options = self.read()
         args = self.read().strip("\0")
         args = args.split("\0") if args else []
 
-        # parse args and run command
-        with chdir(self.cwd):
+        # parse args and run command; the whole request has been read at this
+        # point, so every failure below can still be answered
+        try:
             try:
+                options = shlex.split(options)
+            except ValueError as e:
+                raise IpcCommandError(f"invalid options: {e}")
+            with chdir(self.cwd):
                 args = self.parse_args(options, args)
                 ret = self.run(args)
-            except IpcCommandError as e:
-                if nonfatal:
-                    ret = (e.code, e.msg)
-                else:
-                    raise IpcCommandError(msg=e.msg, code=e.code, name=self.name)
-            except KeyboardInterrupt:
-                raise
-            except Exception as e:
-                raise IpcInternalError("internal failure") from e
+        except IpcCommandError as e:
+            if nonfatal:
+                ret = (e.code, e.msg)
+            else:
+                raise IpcCommandError(msg=e.msg, code=e.code, name=self.name)
+        except KeyboardInterrupt:
+            raise
+        except Exception as e:
+            raise IpcInternalError("internal failure") from e
 
         # return completion status to the bash side
         self.write(self._encode_ret(ret))
